@@ -63,6 +63,16 @@ theorem lt_of_getElem? {α} {l : List α} {i : Nat} {x : α} (h : l[i]? = some x
   · exact h'
   · simp [List.getElem?_eq_none h'] at h
 
+theorem setConn_get {w : World} {i : Nat} {x y : Conn} (hi : w.conns[i]? = some x) :
+    (w.setConn i y).conns[i]? = some y := getElem?_set_eq' hi
+
+theorem run_one {w w1 : World} {a : Label} (h1 : step w a = some w1) : run w [a] = some w1 := by
+  simp only [run, h1]
+theorem run_two {w w1 w2 : World} {a b : Label} (h1 : step w a = some w1) (h2 : step w1 b = some w2) :
+    run w [a, b] = some w2 := by simp only [run, h1, h2]
+theorem run_three {w w1 w2 w3 : World} {a b c : Label} (h1 : step w a = some w1) (h2 : step w1 b = some w2)
+    (h3 : step w2 c = some w3) : run w [a, b, c] = some w3 := by simp only [run, h1, h2, h3]
+
 /-- **pure call update**: call `k` changes only itself; it neither enters nor leaves the two program
     counters that hold a connection, and a quiet target has an empty wait group -/
 theorem Inv.setCall {w w' : World} (h : Inv w) {k : Nat} {c c' : Call} (hk : w.calls[k]? = some c)
